@@ -650,10 +650,12 @@ static void w64_run(uint64_t c)
 }
 VF_SUITE(w64, w64_count, w64_run)
 
-// (d) thorough only: every 32-bit pattern for the bases {2, 8, 10, 16, 36}, signed and unsigned view, render + parse,
-//     against the odometer reference; the other 30 bases on a stride-coprime subsequence of 2^22 patterns each
+// (d) blocks of 2^16 consecutive 32-bit patterns, signed and unsigned view, render + parse, against the odometer reference.
+//     thorough: every 32-bit pattern for bases 10 and 16, every 8th block for bases 2, 8, 36;
+//     the other 30 bases on a stride-coprime subsequence of 2^22 patterns each
 static const unsigned SWEEP_BASES[5] = {2, 8, 10, 16, 36};
-static uint64_t sweep_count() { return vf::thorough() ? 5ull * 65536 : 5ull * 8; }
+// thorough: bases 10 and 16 complete (2 x 65536 blocks), bases 2, 8, 36 every 8th block (3 x 8192 blocks, offset by the seed)
+static uint64_t sweep_count() { return vf::thorough() ? 2ull * 65536 + 3ull * 8192 : 5ull * 8; }
 static void sweep_chunk(unsigned base, uint32_t lo)
 {
     // unsigned view: lo .. lo+65535 ascending; signed view: ascending magnitude
@@ -727,7 +729,16 @@ static void sweep_chunk(unsigned base, uint32_t lo)
 static void sweep_run(uint64_t c)
 {
     if (vf::thorough())
-        sweep_chunk(SWEEP_BASES[c / 65536], (uint32_t)(c % 65536) << 16);
+    {
+        if (c < 2 * 65536)
+            sweep_chunk(c < 65536 ? 10 : 16, (uint32_t)(c % 65536) << 16);
+        else
+        {
+            static const unsigned PART[3] = {2, 8, 36};
+            uint64_t k = c - 2 * 65536;
+            sweep_chunk(PART[k / 8192], (uint32_t)((k % 8192) * 8 + vf::seed() % 8) << 16);
+        }
+    }
     else
     {
         // quick: the 8 chunks around 0, 2^31 and 2^32 for each of the five bases
